@@ -257,11 +257,31 @@ pub fn worker(which: &str, tier: &str, shard: u64, nshards: u64, budget_s: f64) 
             let (cs, cdata) = sim(&mut a, &addr_s(pk_addr(2)), None, &init);
             let dep = TxSpec::Deploy { pk: 2, code: init.clone(), len: DEFAULT_LEN };
             let mut dep_ok = true;
+            // C16: the estimate for the creation itself (a request without `to`) is sufficient: the twin deploys
+            // the program with exactly the estimated allowance
+            let mut dep_b = dep.clone();
+            let mut creation_est = None;
+            if which == "C16" && cs {
+                let e = a.call("eth_estimateGas", json!([{"from": addr_s(pk_addr(2)), "data": hx(&init)}, null]));
+                match e.result().and_then(|x| x.as_str()).and_then(parse_hex_u64) {
+                    Some(g) => {
+                        st.estimates += 1;
+                        creation_est = Some(g);
+                        dep_b = TxSpec::Deploy { pk: 2, code: init.clone(), len: g.div_ceil(GAS_PER_BYTE) };
+                    }
+                    None => st.violations.push(mk("estimate-fails-although-call-succeeds", format!("creation of {}", pname), format!("the simulated creation succeeds but eth_estimateGas answers {}", canon(&e.to_value())))),
+                }
+            }
             let (w0, w1) = worlds.split_at_mut(1);
-            for (inst, w) in [(&mut a, &mut w0[0]), (&mut b, &mut w1[0])] {
-                let (rc, _) = submit(inst, w, &dep);
+            for (k, (inst, w)) in [(&mut a, &mut w0[0]), (&mut b, &mut w1[0])].into_iter().enumerate() {
+                let (rc, _) = submit(inst, w, if k == 0 { &dep } else { &dep_b });
                 if rc["status"].as_str() != Some("0x1") || rc["contractAddress"].as_str().map(|x| x.to_lowercase()) != Some(target.clone()) {
                     dep_ok = false;
+                    if k == 1 {
+                        if let Some(g) = creation_est {
+                            st.violations.push(mk("estimate-insufficient", format!("creation of {}", pname), format!("eth_estimateGas for the creation = {} (inscription length {}): the deployment gave status {} gasUsed {}", g, g.div_ceil(GAS_PER_BYTE), rc["status"], rc["gasUsed"])));
+                        }
+                    }
                 }
             }
             if !dep_ok {
